@@ -28,7 +28,8 @@ func init() {
 func runSchedCtlWL(e *Env) {
 	wl := e.WL
 	webhookPolicy(e, "pkg/hook/controller/schedule_bindings_controller.go", "pkg/schedule_manager/", "pkg/hook/hook_manager.go", "pkg/shell-operator/operator.go")
-	crontabs := []string{"* * * * * *", "*/2 * * * * *", "*/3 * * * * *"}
+	// two spellings of the same schedule (double blank) are two crontab strings: each binding is served under its own
+	crontabs := []string{"* * * * * *", "*/2 * * * * *", "*/3 * * * * *", "*  * * * * *", "*/2 * * * *  *"}
 	nh := 2 + wl.Choose(2)
 	var hooks []*HookSpec
 	for i := 0; i < nh; i++ {
